@@ -6,6 +6,7 @@
 import PydapModel.Ssf
 import Proofs.Ssf
 import Proofs.SsfProxy
+import Proofs.SsfSrc
 namespace Pydap.C19
 open Pydap Pydap.Handler Pydap.Ssf
 
@@ -184,5 +185,34 @@ example : (Arg.call cs!"mean" [.call cs!"mean" [.tok cs!"g.v", .tok cs!"0"], .ca
   simp only [Arg.Ok, Arg.OkList]; decide
 example : parseCall 40 cs!"mean(mean(g.v,0),now(),-1.5e+06)"
     = .call cs!"mean" [.call cs!"mean" [.tok cs!"g.v", .tok cs!"0"], .call cs!"now" [], .tok cs!"-1.5e+06"] := rfl
+
+/-! ### the tie by translation: the *source text* of the pass-through test takes the model's routing decision
+
+`Pydap.Gen.src_ssf_pass_test` (PydapModel/Generated/SsfSrc.lean) is the MiniPy tree of the `if` statement after the first
+`path, response = req.path.rsplit(".", 1)` of `ServerSideFunctions.handle`, regenerated on every run by
+`harness/py2lean.py`; `response` and `called` are inputs (`called` is bound to the model's `hasCall`: the two `any(…)`
+over generators are outside the fragment, and tied by the correspondence run). -/
+
+open MiniPy in
+/-- for every request whose constraint parses and whose path has an extension: the interpreted statement returns
+    `self.app(environ, start_response)` exactly when the model routes the request to `.pass` (response `das`, or no
+    call), and falls through to the function branch otherwise -/
+theorem C19_source_pass_test (path query pre resp : Str) (proj : List ProjItem) (sel : List Str)
+    (hq : parseCE query = .ok (proj, sel)) (hp : rsplitDot path = some (pre, resp)) :
+    runItem [("response", .str (codesOf resp)), ("called", .bool (hasCall proj sel))] Gen.src_ssf_pass_test "@ret"
+      = (if route path query = .pass then .ok (.str passTag) else .error .nameError) := by
+  rw [src_ssf_pass_test_eq]
+  have := route_pass_iff path query pre resp proj sel hq hp
+  by_cases h : route path query = .pass
+  · rw [if_pos h, if_pos (this.mp h)]
+  · rw [if_neg h, if_neg (fun e => h (this.mpr e))]
+
+-- non-vacuity: a `.dds` request with a call is not passed through, the same request for `.das` is
+open MiniPy in
+example : runItem [("response", .str (codesOf cs!"dds")), ("called", .bool true)] Gen.src_ssf_pass_test "@ret"
+    = .error .nameError := by rfl
+open MiniPy in
+example : runItem [("response", .str (codesOf cs!"das")), ("called", .bool true)] Gen.src_ssf_pass_test "@ret"
+    = .ok (.str passTag) := by rfl
 
 end Pydap.C19
